@@ -15,16 +15,27 @@ class Search:
     self.bounds = bounds
     self.exhaustive = exhaustive
     self.max_violations = max_violations
+    self.per_class = {}
+    self.unclassified = 0
 
   def thorough(self):
     return self.tier == 'thorough'
 
-  def check(self, ok, witness, detail):
-    """Returns True if the search should go on."""
+  def check(self, ok, witness, detail, cls=None):
+    """Returns True if the search should go on. With `cls` (a violation class,
+    e.g. the metric name) at most 2 violations per class are kept and the search
+    goes on, so that one recurring (possibly known) violation cannot hide others."""
     self.cases += 1
     if not ok:
+      if cls is not None:
+        n = self.per_class.get(cls, 0)
+        self.per_class[cls] = n + 1
+        if n < 2:
+          self.violations.append(dict(witness=witness, detail=detail))
+        return len(self.violations) < 40
       self.violations.append(dict(witness=witness, detail=detail))
-    return len(self.violations) < self.max_violations
+      self.unclassified += 1
+    return self.unclassified < self.max_violations and len(self.violations) < 40
 
   @property
   def full(self):
